@@ -542,9 +542,19 @@ theorem world_instruction_ledger_step (c : Ctx) :
   ⟨fun _ _ _ h => deposit_ledger h, fun _ _ h => borrow_ledger h, fun _ _ _ h => withdraw_ledger h,
    fun _ _ _ h => repay_ledger h, fun _ h => close_ledger h⟩
 
+/-- **world_liquidation_and_bankruptcy_ledger_step**: a successful classic liquidation moves each of the two banks' share
+    totals by exactly what the liquidator's and the liquidatee's slot arrays gain or lose in that bank (four balance moves on
+    two arrays, slots opened on the liquidator's side, the liquidator's array re-sorted), abandons nothing and touches neither
+    account's holdings in any third bank; a successful bankruptcy settlement moves the bank's totals by exactly what the
+    bankrupt position moves (the loss socialisation changes the deposit SHARE VALUE, never a share count). -/
+theorem world_liquidation_and_bankruptcy_ledger_step :
+    (∀ (c : LiqCtx) amount o, World.liquidate c amount = .ok o → LedgerStep2 c o) ∧
+    (∀ (c : Ctx) available o, World.bankruptcy c available = .ok o → LedgerStepG c.b.key c.a.slots o.slots c.b.books o.books 0 0) :=
+  ⟨fun _ _ _ h => liquidate_ledger h, fun _ _ _ h => bankruptcy_ledger h⟩
+
 /-- **world_ledger_history**: over EVERY history of whole instructions (deposits, withdrawals, borrows, repayments, balance
-    closures by any signer on any account and bank, with any arguments, refused ones rolled back, the clock advancing in
-    between) in a world of any number of accounts and banks with distinct keys, every bank's share totals equal the sum
+    closures, classic liquidations between any two accounts over any two banks, bankruptcy settlements — by any signer on any
+    account and bank, with any arguments, refused ones rolled back, the clock advancing in between) in a world of any number of accounts and banks with distinct keys, every bank's share totals equal the sum
     over all accounts of the shares their slot arrays hold in it, plus the dust that closures abandoned there. -/
 theorem world_ledger_history (w : WState) (ops : List WOp) (h : WInv w) : WInv (w.run ops) := run_inv ops w h
 
